@@ -172,7 +172,11 @@ def analyse(code, want_cpu=True, big=False):
     ng = sum(get_type_size(code.compilation, t) for _, t in code._globals.items())
     res['emitted'] = {'literals': list(code._string_literals), 'data': data_out(emitted_data),
                       'nglobals': ng, 'code': list(code_bytes)}
-    module = QModule.parse(bc)
+    try:
+        module = QModule.parse(bc)
+    except BaseException as e:  # noqa: the loader refusing a compiler-made module is the observation
+        res['parse_exc'] = [type(e).__name__, str(e)[:200]]
+        return res
     res['parse'] = {'literals': list(module.literals), 'data': data_out(module.data),
                     'nglobals': module.n_global_cells, 'code': list(module.code)}
     try:
